@@ -54,16 +54,17 @@ func c13IsPatched() bool { return true }
 var errC13 = errors.New("verif: injected lock backend failure")
 
 type c13Script struct {
-	Kind      string
-	FailFrom  int64 // lock Saves starting at or after this time (ms after acquisition) fail; -1 never
-	FailUntil int64 // ... and before this time; -1 forever
-	SlowFrom  int64 // the first lock Save starting at or after this time takes SlowDur ms; -1 never
-	SlowDur   int64
-	OpDelay   int64 // every lock op takes this long
-	RemoveAt  int64 // all lock files are removed by somebody else at this time; -1 never
-	UnlockAt  int64 // Unlock is called at this time
-	End       int64
-	Transient bool
+	Kind          string
+	FailFrom      int64 // lock Saves starting at or after this time (ms after acquisition) fail; -1 never
+	FailUntil     int64 // ... and before this time; -1 forever
+	SlowFrom      int64 // the first lock Save starting at or after this time takes SlowDur ms; -1 never
+	SlowDur       int64
+	OpDelay       int64 // every lock op takes this long
+	RemoveAt      int64 // all lock files are removed by somebody else at this time; -1 never
+	RemoveOldOnly bool  // the external remover keeps the newest lock file (the replacement being adopted)
+	UnlockAt      int64 // Unlock is called at this time
+	End           int64
+	Transient     bool
 }
 
 type c13Event struct {
